@@ -551,4 +551,505 @@ theorem inv_map_loc (s : Sys) (hi : Inv s) (f : Row → Row) (hf : StatusOnly s.
         · rw [e]; exact hst
         · rw [hc] at hc'; cases hc'; rw [e]
 
+
+/-! #### submitting a certificate -/
+
+theorem getLast?_getElem (agg : List ACert) (i : Nat) (h : i < agg.length) (hl : i + 1 = agg.length) :
+    agg.getLast? = some agg[i] := by
+  rw [List.getLast?_eq_getElem?]
+  have : agg.length - 1 = i := by omega
+  rw [this, List.getElem?_eq_getElem h]
+
+theorem agg_append (cfg : Cfg) (agg : List ACert) (c' : ACert)
+    (hids : ∀ i (h : i < agg.length), (agg[i]).id = i + 1)
+    (hcl : ∀ i (h : i < agg.length), i + 1 < agg.length → (agg[i]).status.isOpen = false)
+    (hch : ∀ i (h : i < agg.length), CertOK cfg (agg.take i) agg[i])
+    (hid : c'.id = agg.length + 1) (hok : CertOK cfg agg c')
+    (hlastc : ∀ x, agg.getLast? = some x → x.status.isOpen = false) :
+    (∀ i (h : i < (agg ++ [c']).length), ((agg ++ [c'])[i]).id = i + 1) ∧
+    (∀ i (h : i < (agg ++ [c']).length), i + 1 < (agg ++ [c']).length → ((agg ++ [c'])[i]).status.isOpen = false) ∧
+    (∀ i (h : i < (agg ++ [c']).length), CertOK cfg ((agg ++ [c']).take i) (agg ++ [c'])[i]) := by
+  refine ⟨?_, ?_, ?_⟩
+  · intro i h
+    by_cases hi : i < agg.length
+    · rw [List.getElem_append_left hi]; exact hids i hi
+    · have : i = agg.length := by simp at h; omega
+      subst this; simp [hid]
+  · intro i h h2
+    have hi : i < agg.length := by simp at h2; omega
+    rw [List.getElem_append_left hi]
+    by_cases h3 : i + 1 < agg.length
+    · exact hcl i hi h3
+    · exact hlastc _ (getLast?_getElem agg i hi (by omega))
+  · intro i h
+    by_cases hi : i < agg.length
+    · rw [List.getElem_append_left hi, List.take_append_of_le_length (Nat.le_of_lt hi)]; exact hch i hi
+    · have : i = agg.length := by simp at h; omega
+      subst this; simp; exact hok
+
+theorem lastRow_none_nil (loc : List Row) (h : lastRow loc = none) : loc = [] := by
+  unfold lastRow at h; simpa using h
+
+theorem expect_fst_ge (cfg : Cfg) (pre : List ACert) (x : ACert) (hx : CertOK cfg pre x) :
+    x.height ≤ (expect cfg (pre ++ [x])).1 := by
+  by_cases h : x.status = .settled
+  · rw [expect_snoc_settled cfg pre x h]; simp
+  · rw [expect_snoc_not cfg pre x h, ← hx.1]; simp
+
+theorem inv_lastOK (s : Sys) (hi : Inv s) : LastOK s.cfg s.agg := by
+  intro pre x hpre
+  have hidx : pre.length < s.agg.length := by rw [hpre]; simp
+  have := (hi.chain pre.length hidx).1
+  simpa [hpre] using this
+
+theorem send_inv (size : Params → Nat) (s : Sys) (hi : Inv s) (hup : s.up = true) (crash : Bool) :
+    Inv (send size s crash).1 := by
+  unfold send
+  cases hb : build size s.cfg s.l2 s.loc with
+  | none => exact hi
+  | err => exact hi
+  | cert c retry tb =>
+    simp only
+    by_cases hf : s.failSub = true
+    · rw [if_pos hf]; exact hi.of_eq rfl rfl rfl rfl rfl
+    rw [if_neg hf]
+    have hsync := hi.syncUp hup
+    have hlast := inv_lastOK s hi
+    obtain ⟨b1, b2, b3, _, _, _, _, b8, b9⟩ :=
+      build_spec size s.cfg s.l2 hi.l2wf s.loc s.agg hsync hlast c retry tb hb
+    -- the Agglayer's last certificate is decided, and the node's last record has its status
+    have hlastc : ∀ x, s.agg.getLast? = some x → x.status.isOpen = false ∧
+        ∃ r, lastRow s.loc = some r ∧ Matches r x ∧ r.status = x.status := by
+      intro x hx
+      unfold SyncUp at hsync
+      rw [hx] at hsync
+      cases hl : lastRow s.loc with
+      | none => rw [hl] at hsync; exact absurd hsync (by simp)
+      | some r =>
+        rw [hl] at hsync
+        have hm : Matches r x := hsync
+        have hc := b9 r hl
+        have hst : r.status = x.status := by
+          rcases hm.status with e | e
+          · exact e
+          · rw [hc] at e; cases e
+        exact ⟨by rw [← hst]; exact hc, r, rfl, hm, hst⟩
+    have hok : CertOK s.cfg s.agg { c with id := s.agg.length + 1 } := ⟨b1, b2⟩
+    obtain ⟨g1, g2, g3⟩ := agg_append s.cfg s.agg { c with id := s.agg.length + 1 } hi.ids hi.closedPrefix hi.chain rfl hok
+      (fun x hx => (hlastc x hx).1)
+    have hrowsOld : ∀ r ∈ s.loc, ∃ c0, certById (s.agg ++ [{ c with id := s.agg.length + 1 }]) r.id = some c0 ∧ Matches r c0 := by
+      intro r hr
+      obtain ⟨c0, hc0, hm⟩ := hi.rows r hr
+      exact ⟨c0, certById_append _ _ _ _ hc0, hm⟩
+    by_cases hcr : crash = true
+    · -- the process dies between the submission and the local write
+      rw [if_pos hcr]
+      refine ⟨hi.withPrev, hi.l2wf, g1, g2, g3, hi.sorted, hrowsOld, fun h => by simp at h, ?_⟩
+      intro _
+      unfold SyncDown
+      simp only
+      cases hl : lastRow s.loc with
+      | none => exact Or.inl rfl
+      | some r =>
+        right
+        refine ⟨r, rfl, Or.inr ?_⟩
+        cases hg : s.agg.getLast? with
+        | none =>
+          unfold SyncUp at hsync; rw [hl, hg] at hsync; exact absurd hsync (by simp)
+        | some x =>
+          obtain ⟨hxc, r', hr', hm, hst⟩ := hlastc x hg
+          rw [hl] at hr'; cases hr'
+          obtain ⟨pre, hpre⟩ := List.getLast?_eq_some_iff.mp hg
+          exact ⟨pre, x, _, by rw [hpre, List.append_assoc]; rfl, hm, hst, hxc⟩
+    · rw [if_neg hcr]
+      -- the new record is the highest one
+      have hle : ∀ x ∈ s.loc, x.height ≤ (rowOfCert { c with id := s.agg.length + 1 } retry tb).height := by
+        intro x hx
+        simp only [rowOfCert]
+        cases hl : lastRow s.loc with
+        | none => rw [lastRow_none_nil _ hl] at hx; simp at hx
+        | some r =>
+          have h1 := sorted_le_last s.loc hi.sorted r hl x hx
+          cases hg : s.agg.getLast? with
+          | none => unfold SyncUp at hsync; rw [hl, hg] at hsync; exact absurd hsync (by simp)
+          | some y =>
+            obtain ⟨_, r', hr', hm, _⟩ := hlastc y hg
+            rw [hl] at hr'; cases hr'
+            obtain ⟨pre, hpre⟩ := List.getLast?_eq_some_iff.mp hg
+            have hidx : pre.length < s.agg.length := by rw [hpre]; simp
+            have hy : CertOK s.cfg pre y := by
+              have := hi.chain pre.length hidx
+              simpa [hpre] using this
+            have h2 := expect_fst_ge s.cfg pre y hy
+            rw [← hpre, ← b1] at h2
+            simp only at h2
+            rw [hm.height] at h1
+            omega
+      refine ⟨hi.withPrev, hi.l2wf, g1, g2, g3, saveRow_sorted _ _ hi.sorted, ?_, ?_, fun h => by simp [hup] at h⟩
+      · intro r hr
+        rcases mem_saveRow _ _ _ hr with e | hr
+        · subst e
+          refine ⟨{ c with id := s.agg.length + 1 }, by simp only [rowOfCert]; exact certById_new _ _, ?_⟩
+          exact ⟨rfl, rfl, rfl, b3.symm, rfl, rfl, Or.inl (by simp only [rowOfCert]; exact b8.symm)⟩
+        · exact hrowsOld r hr
+      · intro _
+        unfold SyncUp
+        simp only
+        rw [saveRow_last _ _ hle]
+        simp only [List.getLast?_append, List.getLast?_singleton, Option.some_or]
+        exact ⟨rfl, rfl, rfl, b3.symm, rfl, rfl, Or.inl (by simp only [rowOfCert]; exact b8.symm)⟩
+
+theorem tick_inv (size : Params → Nat) (s : Sys) (hi : Inv s) (epoch crash : Bool) :
+    Inv (tick size s epoch crash).1 := by
+  unfold tick
+  by_cases hu : s.up = true
+  · simp only [hu, Bool.not_true, Bool.false_eq_true, if_false]
+    obtain ⟨f, hf, he⟩ := poll_map s
+    have h1 : Inv (poll s).1 := by
+      rw [he]; exact (inv_map_loc s hi f hf).of_eq rfl rfl rfl rfl rfl
+    have hu1 : (poll s).1.up = true := by rw [he]; exact hu
+    generalize hp : poll s = pr at h1 hu1
+    obtain ⟨s1, p⟩ := pr
+    simp only at h1 hu1 ⊢
+    have key : ∀ go : Bool, Inv (if go = true then send size s1 crash else (s1, SendOut.none)).1 := by
+      intro go; cases go
+      · simpa using h1
+      · simpa using send_inv size s1 h1 hu1 crash
+    exact (key (if epoch = true then !p.pending else (!p.pending && p.newInError && s1.cfg.retry))).of_eq
+      rfl rfl rfl rfl rfl
+  · have : s.up = false := by simpa using hu
+    simp only [this, Bool.not_false, if_true]; exact hi
+
+
+/-! #### the Agglayer moves a certificate -/
+
+def mv (id : Nat) (st : St) (c : ACert) : ACert :=
+  if c.id = id ∧ c.status.isOpen then { c with status := st } else c
+
+theorem moveCert_eq (agg : List ACert) (id : Nat) (st : St) : moveCert agg id st = agg.map (mv id st) := rfl
+
+theorem mv_closed (id : Nat) (st : St) (c : ACert) (h : c.status.isOpen = false) : mv id st c = c := by
+  unfold mv; rw [if_neg]; intro hh; rw [h] at hh; exact absurd hh.2 (by simp)
+
+theorem mv_id (id : Nat) (st : St) (c : ACert) : (mv id st c).id = c.id := by
+  unfold mv; split <;> rfl
+
+theorem certOK_mv (cfg : Cfg) (pre : List ACert) (id : Nat) (st : St) (c : ACert) (h : CertOK cfg pre c) :
+    CertOK cfg pre (mv id st c) := by
+  unfold mv; split
+  · exact h
+  · exact h
+
+theorem matches_mv (id : Nat) (st : St) (r : Row) (c : ACert) (hm : Matches r c) : Matches r (mv id st c) := by
+  unfold mv
+  split
+  · rename_i h
+    refine ⟨hm.id, hm.height, hm.from_, hm.to_, hm.new, hm.prev, Or.inr ?_⟩
+    rcases hm.status with e | e
+    · rw [e]; exact h.2
+    · exact e
+  · exact hm
+
+theorem certById_map (agg : List ACert) (g : ACert → ACert) (id : Nat) :
+    certById (agg.map g) id = (certById agg id).map g := by
+  unfold certById
+  by_cases h : id = 0
+  · simp [h]
+  · simp [h]
+
+theorem move_inv (s : Sys) (hi : Inv s) (id : Nat) (st : St) : Inv { s with agg := moveCert s.agg id st } := by
+  rw [moveCert_eq]
+  have hlen : (s.agg.map (mv id st)).length = s.agg.length := List.length_map ..
+  have hpre : ∀ i, i < s.agg.length → (s.agg.take i).map (mv id st) = s.agg.take i := by
+    intro i hi'
+    conv => rhs; rw [← List.map_id (s.agg.take i)]
+    apply List.map_congr_left
+    intro a ha
+    obtain ⟨j, hj, e⟩ := List.getElem_of_mem ha
+    have hj' : j < i := by simp at hj; omega
+    have hj2 : j < s.agg.length := by omega
+    have : (s.agg.take i)[j] = s.agg[j] := by simp
+    rw [← e, this]
+    exact mv_closed _ _ _ (hi.closedPrefix j hj2 (by omega))
+  refine ⟨hi.withPrev, hi.l2wf, ?_, ?_, ?_, hi.sorted, ?_, ?_, ?_⟩
+  · intro i h
+    simp only [List.getElem_map, mv_id]
+    exact hi.ids i (by simpa using h)
+  · intro i h h2
+    simp only [List.getElem_map]
+    have hi' : i < s.agg.length := by simpa using h
+    have h3 : i + 1 < s.agg.length := by simpa using h2
+    rw [mv_closed _ _ _ (hi.closedPrefix i hi' h3)]
+    exact hi.closedPrefix i hi' h3
+  · intro i h
+    have hi' : i < s.agg.length := by simpa using h
+    simp only [List.getElem_map]
+    rw [← List.map_take, hpre i hi']
+    exact certOK_mv _ _ _ _ _ (hi.chain i hi')
+  · intro r hr
+    obtain ⟨c, hc, hm⟩ := hi.rows r hr
+    exact ⟨mv id st c, by simp only; rw [certById_map, hc]; rfl, matches_mv _ _ _ _ hm⟩
+  · intro hu
+    have h0 := hi.syncUp hu
+    unfold SyncUp at h0 ⊢
+    simp only
+    rw [List.getLast?_map]
+    cases hl : lastRow s.loc with
+    | none => rw [hl] at h0; cases hg : s.agg.getLast? <;> simp_all
+    | some r =>
+      rw [hl] at h0
+      cases hg : s.agg.getLast? with
+      | none => rw [hg] at h0; exact absurd h0 (by simp)
+      | some c => rw [hg] at h0; exact matches_mv _ _ _ _ h0
+  · intro hu
+    have h0 := hi.syncDown hu
+    unfold SyncDown at h0 ⊢
+    simp only
+    rcases h0 with h0 | ⟨r, hl, h0⟩
+    · exact Or.inl h0
+    · right
+      refine ⟨r, hl, ?_⟩
+      rcases h0 with ⟨c, hg, hm⟩ | ⟨pre, c, d, hp, hm, hst, hcl⟩
+      · left; exact ⟨mv id st c, by rw [List.getLast?_map, hg]; rfl, matches_mv _ _ _ _ hm⟩
+      · right
+        refine ⟨pre.map (mv id st), c, mv id st d, ?_, hm, hst, hcl⟩
+        rw [hp]; simp [mv_closed _ _ _ hcl]
+
+
+/-! #### start-up reconciliation -/
+
+def lastOfPS (settled pending : Option ACert) : Option ACert :=
+  match pending with
+  | some p => some p
+  | none => settled
+
+def ProcPost (settled pending : Option ACert) (loc : Option Row) : Action → Prop
+  | .none => loc = none ∧ (lastOfPS settled pending = none ∨ (settled = none ∧ ∃ p, pending = some p ∧ p.height ≠ 0))
+  | .update c => lastOfPS settled pending = some c ∧ ∃ l, loc = some l ∧ l.id = c.id
+  | .insert c => lastOfPS settled pending = some c ∧ (∀ l, loc = some l → l.height ≤ c.height)
+
+theorem process_main (l : Row) (c : ACert) (a : Action)
+    (h : (if c.height < l.height then none
+      else if c.height = l.height + 1 then some (Action.insert c)
+      else if l.id ≠ c.id then
+        (if l.status = St.inError ∧ c.height = l.height then some (Action.insert c) else none)
+      else some (Action.update c)) = some a) :
+    (a = .insert c ∧ l.height ≤ c.height) ∨ (a = .update c ∧ l.id = c.id) := by
+  by_cases h1 : c.height < l.height
+  · rw [if_pos h1] at h; cases h
+  rw [if_neg h1] at h
+  by_cases h2 : c.height = l.height + 1
+  · rw [if_pos h2] at h; cases h; exact Or.inl ⟨rfl, by omega⟩
+  rw [if_neg h2] at h
+  by_cases h3 : l.id ≠ c.id
+  · rw [if_pos h3] at h
+    by_cases h4 : l.status = St.inError ∧ c.height = l.height
+    · rw [if_pos h4] at h; cases h; exact Or.inl ⟨rfl, by omega⟩
+    · rw [if_neg h4] at h; cases h
+  · rw [if_neg h3] at h; cases h; exact Or.inr ⟨rfl, by simpa using h3⟩
+
+theorem process_spec (settled pending : Option ACert) (loc : Option Row) (a : Action)
+    (h : process settled pending loc = some a) : ProcPost settled pending loc a := by
+  unfold process at h
+  by_cases hc : (!agglayerConsistent settled pending) = true
+  · rw [if_pos hc] at h; cases h
+  rw [if_neg hc] at h
+  cases loc <;> cases settled <;> cases pending <;> simp only [] at h
+  · cases h; exact ⟨rfl, Or.inl rfl⟩
+  · rename_i p
+    by_cases h0 : p.height = 0
+    · simp only [h0, if_true] at h; cases h; exact ⟨rfl, fun l hl => by cases hl⟩
+    · simp only [h0, if_false] at h
+      by_cases h1 : (p.status != St.inError) = true
+      · simp only [h1, if_true] at h; cases h
+      · simp only [h1, if_false] at h; cases h; exact ⟨rfl, Or.inr ⟨rfl, p, rfl, h0⟩⟩
+  · cases h; exact ⟨rfl, fun l hl => by cases hl⟩
+  · cases h; exact ⟨rfl, fun l hl => by cases hl⟩
+  · cases h
+  all_goals
+    rename_i l _
+    rcases process_main _ _ _ h with ⟨e, h1⟩ | ⟨e, h1⟩
+    · subst e; exact ⟨rfl, fun l' hl => by cases hl; exact h1⟩
+    · subst e; exact ⟨rfl, _, rfl, h1⟩
+
+theorem lastOf (agg : List ACert) : lastOfPS (lastSettled agg) (lastPending agg) = agg.getLast? := by
+  unfold lastOfPS
+  cases hg : agg.getLast? with
+  | none =>
+    have : agg = [] := by simpa using hg
+    subst this; simp [lastPending, lastSettled]
+  | some c =>
+    obtain ⟨pre, hpre⟩ := List.getLast?_eq_some_iff.mp hg
+    unfold lastPending
+    rw [hg]
+    by_cases h : c.status = .settled
+    · simp only [h, if_true]; rw [hpre, lastSettled_snoc, if_pos h]
+    · simp only [h, if_false]
+
+theorem inv_set_up (s : Sys) (hi : Inv s) (h : SyncUp s.loc s.agg) : Inv { s with up := true } :=
+  ⟨hi.withPrev, hi.l2wf, hi.ids, hi.closedPrefix, hi.chain, hi.sorted, hi.rows, fun _ => h, fun hu => by simp at hu⟩
+
+theorem mem_of_lastRow (loc : List Row) (r : Row) (h : lastRow loc = some r) : r ∈ loc :=
+  List.mem_of_getLast? h
+
+theorem restart_inv (s : Sys) (hi : Inv s) : Inv (restart s).1 := by
+  unfold restart
+  by_cases hu : s.up = true
+  · rw [if_pos hu]; exact hi
+  rw [if_neg hu]
+  have hdown : s.up = false := by simpa using hu
+  obtain ⟨f, hf, he⟩ := poll_map s
+  have h1 : Inv (poll s).1 := by rw [he]; exact (inv_map_loc s hi f hf).of_eq rfl rfl rfl rfl rfl
+  generalize hp : poll s = pr at h1
+  obtain ⟨s1, p⟩ := pr
+  simp only at h1 ⊢
+  by_cases hfr : s1.failRec = true
+  · simp only [hfr, if_true]; exact h1.of_eq rfl rfl rfl rfl rfl
+  simp only [hfr, Bool.false_eq_true, if_false]
+  cases hpr : process (lastSettled s1.agg) (lastPending s1.agg) (lastRow s1.loc) with
+  | none => exact h1.of_eq rfl rfl rfl rfl rfl
+  | some a =>
+    have hps := process_spec _ _ _ _ hpr
+    cases a with
+    | none =>
+      simp only [ProcPost, lastOf] at hps
+      obtain ⟨hl, hcase⟩ := hps
+      refine (inv_set_up s1 h1 ?_).of_eq rfl rfl rfl rfl rfl
+      unfold SyncUp
+      rw [hl]
+      rcases hcase with hg | ⟨hs, p0, hp0, hne⟩
+      · rw [hg]; trivial
+      · -- no settled certificate but a pending one above height 0: excluded by the chain
+        exfalso
+        unfold lastPending at hp0
+        cases hg : s1.agg.getLast? with
+        | none => rw [hg] at hp0; cases hp0
+        | some c =>
+          rw [hg] at hp0
+          simp only [] at hp0
+          by_cases hst : c.status = .settled
+          · rw [if_pos hst] at hp0; cases hp0
+          · rw [if_neg hst] at hp0
+            have e : c = p0 := by simpa using hp0
+            subst e
+            obtain ⟨pre, hpre⟩ := List.getLast?_eq_some_iff.mp hg
+            have hidx : pre.length < s1.agg.length := by rw [hpre]; simp
+            have hc : CertOK s1.cfg pre c := by
+              have := h1.chain pre.length hidx
+              simpa [hpre] using this
+            rw [hpre, lastSettled_snoc, if_neg hst] at hs
+            have := hc.1
+            unfold expect at this
+            rw [hs] at this
+            simp only [Prod.mk.injEq] at this
+            exact hne this.1
+    | update c =>
+      simp only [ProcPost, lastOf] at hps
+      obtain ⟨hg, l, hl, hid⟩ := hps
+      have hcid : certById s1.agg l.id = some c := by rw [hid]; exact certById_last s1.agg h1.ids c hg
+      have hmem := mem_of_lastRow _ _ hl
+      obtain ⟨c0, hc0, hm⟩ := h1.rows l hmem
+      rw [hcid] at hc0; cases hc0
+      simp only [hl]
+      have hso : StatusOnly s1.agg (fun r => if r.id = l.id then { r with status := c.status } else r) :=
+        setStatus_statusOnly s1.agg l.id c hcid
+      by_cases hst : l.status = c.status
+      · rw [if_pos hst]
+        refine (inv_set_up s1 h1 ?_).of_eq rfl rfl rfl rfl rfl
+        unfold SyncUp; rw [hl, hg]; exact hm
+      · rw [if_neg hst]
+        have h2 := inv_map_loc s1 h1 _ hso
+        refine (inv_set_up _ h2 ?_).of_eq rfl rfl rfl rfl rfl
+        unfold SyncUp
+        simp only
+        rw [lastRow_map, hl, hg]
+        exact matches_statusOnly _ _ hso l c hcid hm
+    | insert c =>
+      simp only [ProcPost, lastOf] at hps
+      obtain ⟨hg, hle⟩ := hps
+      have hcid : certById s1.agg c.id = some c := certById_last s1.agg h1.ids c hg
+      have hrow : Matches (rowOfHeader s1.cfg.omitPrev c) c := by
+        rw [h1.withPrev]
+        exact ⟨rfl, rfl, rfl, rfl, rfl, rfl, Or.inl rfl⟩
+      have hle' : ∀ x ∈ s1.loc, x.height ≤ (rowOfHeader s1.cfg.omitPrev c).height := by
+        intro x hx
+        cases hl : lastRow s1.loc with
+        | none => rw [lastRow_none_nil _ hl] at hx; simp at hx
+        | some l =>
+          have := sorted_le_last s1.loc h1.sorted l hl x hx
+          have := hle l hl
+          simp only [rowOfHeader]; omega
+      refine ⟨h1.withPrev, h1.l2wf, h1.ids, h1.closedPrefix, h1.chain, saveRow_sorted _ _ h1.sorted, ?_, ?_,
+        fun hu => by simp at hu⟩
+      · intro r hr
+        rcases mem_saveRow _ _ _ hr with e | hr
+        · subst e; exact ⟨c, hcid, hrow⟩
+        · exact h1.rows r hr
+      · intro _
+        unfold SyncUp
+        simp only
+        rw [saveRow_last _ _ hle', hg]
+        exact hrow
+
+
+/-! #### every operation keeps the invariant -/
+
+/-- admissible inputs: an L2 block's events carry its number, and block numbers fit the 32-bit offset of the
+    certificate metadata (the code truncates `uint32(ToBlock-FromBlock)`; see DESIGN F8) -/
+def OpOK : Op → Prop
+  | .l2blk b => b.num < 2^32 ∧ (∀ e ∈ b.bridges, e.block = b.num) ∧ (∀ e ∈ b.claims, e.block = b.num)
+  | _ => True
+
+theorem syncDown_of_up (loc : List Row) (agg : List ACert) (h : SyncUp loc agg) : SyncDown loc agg := by
+  unfold SyncUp at h
+  unfold SyncDown
+  cases hl : lastRow loc with
+  | none => exact Or.inl rfl
+  | some r =>
+    rw [hl] at h
+    cases hg : agg.getLast? with
+    | none => rw [hg] at h; exact absurd h (by simp)
+    | some c => rw [hg] at h; exact Or.inr ⟨r, rfl, Or.inl ⟨c, rfl, h⟩⟩
+
+theorem step_inv (size : Params → Nat) (s : Sys) (hi : Inv s) (op : Op) (hop : OpOK op) : Inv (step size s op) := by
+  cases op with
+  | l2blk b =>
+    simp only [step]
+    split
+    · refine ⟨hi.withPrev, ?_, hi.ids, hi.closedPrefix, hi.chain, hi.sorted, hi.rows, hi.syncUp, hi.syncDown⟩
+      intro x hx
+      simp only at hx
+      rcases List.mem_append.mp hx with h | h
+      · exact hi.l2wf x h
+      · rw [List.mem_singleton.mp h]; exact hop
+    · exact hi
+  | epoch c => exact tick_inv size s hi true c
+  | status c => exact tick_inv size s hi false c
+  | move id st => exact move_inv s hi id st
+  | failHdr => exact hi.of_eq rfl rfl rfl rfl rfl
+  | failSub => exact hi.of_eq rfl rfl rfl rfl rfl
+  | failRec => exact hi.of_eq rfl rfl rfl rfl rfl
+  | crash =>
+    refine ⟨hi.withPrev, hi.l2wf, hi.ids, hi.closedPrefix, hi.chain, hi.sorted, hi.rows, fun h => by simp [step] at h, ?_⟩
+    intro _
+    by_cases hu : s.up = true
+    · exact syncDown_of_up _ _ (hi.syncUp hu)
+    · exact hi.syncDown (by simpa using hu)
+  | losedb =>
+    refine ⟨hi.withPrev, hi.l2wf, hi.ids, hi.closedPrefix, hi.chain, ?_, ?_, fun h => by simp [step] at h, ?_⟩
+    · simp [step]
+    · intro r hr; simp [step] at hr
+    · intro _; exact Or.inl rfl
+  | restart => exact (restart_inv s hi).of_eq rfl rfl rfl rfl rfl
+
+theorem run_inv (size : Params → Nat) (ops : List Op) : ∀ (s : Sys), Inv s → (∀ op ∈ ops, OpOK op) →
+    Inv (run size s ops) := by
+  induction ops with
+  | nil => intro s hi _; exact hi
+  | cons op rest ih =>
+    intro s hi hok
+    unfold run
+    simp only [List.foldl_cons]
+    exact ih _ (step_inv size s hi op (hok op (List.mem_cons_self ..))) (fun o ho => hok o (List.mem_cons_of_mem _ ho))
+
 end Aggkit.Aggsender
